@@ -224,6 +224,43 @@ pub fn check(s: &'static dyn Proto, c: &Case, st: &mut Stats, _k: &KnownFindings
         }
     }
 
+    // encodings round-trip exactly also at the edge of the range: whatever the private-key decoder
+    // accepts must re-encode to the very same bytes (so n, n+1, all-ones are either refused or,
+    // for Curve25519, kept verbatim - never silently reduced)
+    {
+        let mut edge: Vec<Vec<u8>> = vec![vec![0xffu8; m.nsk]];
+        if let Some(g) = rm::grp_of_ke(m.ke) {
+            let n = g.order_bytes();
+            let le = g.little_endian();
+            edge.push(n.clone());
+            let mut one = vec![0u8; n.len()];
+            if le {
+                one[0] = 1;
+            } else {
+                let l = one.len();
+                one[l - 1] = 1;
+            }
+            if let Some(n1) = crate::decoders::add_bytes(&n, &one, le) {
+                edge.push(n1);
+            }
+            if let Some(v) = crate::decoders::add_bytes(&a, &n, le) {
+                edge.push(v);
+            }
+        }
+        for x in edge {
+            for (api, r) in [
+                ("PrivateKey::deserialize", s.sk_deserialize(&x).ok()),
+                ("KeGroup::deserialize_sk", s.kg_sk_roundtrip(&x).ok()),
+                ("KeyPair::from_private_key_slice", s.keypair_from_private_key_slice(&x).ok().map(|(_, sk)| sk)),
+            ] {
+                if let Some(y) = r {
+                    ensure_eq!(y, x, "{api} accepted an out-of-range private key and changed it");
+                }
+                st.eval(1);
+            }
+        }
+    }
+
     // seeded derivation
     let seed = match c.seed {
         SeedSpec::Random => {
